@@ -1,28 +1,129 @@
 """C08 — evidence is bound to its step: a link counts only for the step it names."""
-from harness import vcore
+import os
+
+from harness import keys as hk
+from harness import vcore, vscen
 from vlib import core
 
 PROPS = ["Props/C08.v"]
 
 
+def _k(i):
+    return hk.sslib_key("ed25519", i)
+
+
+# ---------------------------------------------------------------------------------------------------------------
+# pinned regressions of D8 (fixed by 5cf545d): a recurrence is a VIOLATION with a replay file
+def pin_copy(dsse, src, dst, noticing, layout_dsse=False):
+    """steps a then b authorise the same functionary; [src]'s link is presented under [dst]'s file name (file copy,
+    dst has no link of its own).  noticing: dst's rules REQUIRE its own product, which the replayed link lacks."""
+    def fn(env, wd):
+        p = vscen.Pin(env)
+        k0 = _k(0)
+        p.store({k0.keyid: k0.pub})
+        prod = {"a": p.art("out/a.o"), "b": p.art("out/b.bin")}
+        for s in ("a", "b"):
+            ep = [["REQUIRE", sorted(prod[s])[0]], ["ALLOW", "*"]] if (noticing and s == dst) else [["ALLOW", "*"]]
+            p.step(s, [k0.keyid], ep=ep)
+        fn_src = p.link(src, k0.keyid, k0, {}, prod[src], dsse=dsse)
+        p.files["%s.%s.link" % (dst, k0.keyid[:8])] = p.files[fn_src]
+        return p.scenario(_k(5), wd, dsse=layout_dsse, tags=["link_replayed_name", "copy:%s_to_%s:%s:%s" % (
+            src, dst, "dsse" if dsse else "metablock", "noticing_rules" if noticing else "no_rule_notices")],
+            expect="ThresholdVerificationError")
+    return fn
+
+
+def pin_copy_next_to_valid(dsse):
+    """step b (threshold 1) authorises k0 and k1; k0's file is step a's link (first in load order), k1's is honest:
+    accepted, and the representative link of b is k1's, not the replayed one"""
+    def fn(env, wd):
+        p = vscen.Pin(env)
+        k0, k1 = _k(0), _k(1)
+        p.store({k0.keyid: k0.pub, k1.keyid: k1.pub})
+        A, B = p.art("out/a.o"), p.art("out/b.bin")
+        p.step("a", [k0.keyid])
+        p.step("b", [k0.keyid, k1.keyid], threshold=1)
+        fn_a = p.link("a", k0.keyid, k0, {}, A, dsse=dsse)
+        p.files["b.%s.link" % k0.keyid[:8]] = p.files[fn_a]
+        p.link("b", k1.keyid, k1, {}, B, dsse=dsse)
+        sc = p.scenario(_k(5), wd, tags=["link_replayed_name", "copy:a_to_b:%s:next_to_valid" % ("dsse" if dsse else "metablock")],
+                        expect="accept")
+        sc["expect_summary"] = {"products": B}
+        return sc
+    return fn
+
+
+def pin_sublayout(with_dir, dsse):
+    """a sublayout file carries no step name and is exempt from the name check: step a's sublayout copied to step b's
+    file name verifies for b against the sub-directory b.<keyid8>/ (bound by file name + directory)"""
+    def fn(env, wd):
+        p, sub = vscen.Pin(env), vscen.Pin(env)
+        k0, k1 = _k(0), _k(1)
+        M, P = sub.art("src/a.c"), sub.art("out/a.o")
+        sub.store({k1.keyid: k1.pub})
+        sub.step("compile", [k1.keyid])
+        sub.link("compile", k1.keyid, k1, M, P, dsse=dsse)
+        p.store({k0.keyid: k0.pub})
+        p.step("a", [k0.keyid])
+        p.step("b", [k0.keyid])
+        p.sublayout("a", k0.keyid, sub, k0, dsse=dsse)
+        p.files["b.%s.link" % k0.keyid[:8]] = p.files["a.%s.link" % k0.keyid[:8]]
+        if with_dir:
+            p.dirs["b.%s" % k0.keyid[:8]] = p.dirs["a.%s" % k0.keyid[:8]]
+        return p.scenario(_k(5), wd, tags=["sublayout:honest", "sublayout_copied:%s" % ("with_dir" if with_dir else "without_dir")],
+                          expect="accept" if with_dir else "LinkNotFoundError")
+    return fn
+
+
+def pin_sub_replay(dsse):
+    """inside a sublayout the binding holds as well: sub-step x's link copied to sub-step y's file name"""
+    def fn(env, wd):
+        p, sub = vscen.Pin(env), vscen.Pin(env)
+        k0, k1 = _k(0), _k(1)
+        sub.store({k1.keyid: k1.pub})
+        sub.step("x", [k1.keyid])
+        sub.step("y", [k1.keyid])
+        fx = sub.link("x", k1.keyid, k1, {}, sub.art("out/x"), dsse=dsse)
+        sub.files["y.%s.link" % k1.keyid[:8]] = sub.files[fx]
+        p.store({k0.keyid: k0.pub})
+        p.step("a", [k0.keyid])
+        p.sublayout("a", k0.keyid, sub, k0, dsse=dsse)
+        return p.scenario(_k(5), wd, tags=["sublayout:honest", "link_replayed_name", "copy:in_sublayout"],
+                          expect="ThresholdVerificationError")
+    return fn
+
+
+PINNED = (
+    [("D8:%s:%s_to_%s:%s" % ("dsse" if d else "metablock", s, t, "noticing" if nt else "unnoticed"), pin_copy(d, s, t, nt))
+     for d in (False, True) for (s, t) in (("a", "b"), ("b", "a")) for nt in (False, True)]
+    + [("D8:dsse_layout:a_to_b", pin_copy(True, "a", "b", False, layout_dsse=True)),
+       ("D8:next_to_valid:metablock", pin_copy_next_to_valid(False)), ("D8:next_to_valid:dsse", pin_copy_next_to_valid(True)),
+       ("sublayout_copied:with_dir", pin_sublayout(True, False)), ("sublayout_copied:with_dir:dsse", pin_sublayout(True, True)),
+       ("sublayout_copied:without_dir", pin_sublayout(False, False)),
+       ("D8:in_sublayout:metablock", pin_sub_replay(False)), ("D8:in_sublayout:dsse", pin_sub_replay(True))]
+)
+
+
 def run(ctx):
     n = 1500 if ctx.thorough() else 300
-    import os
-    if os.path.exists(os.path.join(core.COQ, "Props", "C08.v")):
-        core.check_props(ctx, PROPS)
+    core.check_props(ctx, PROPS)
     opt_sets = [
         {"link_variants": ["honest"] * 3 + ["replayed_name"], "p_sub": 0.05, "vary_keys": False},
         {"link_variants": ["honest", "replayed_name", "wrong_signer", "edited"], "p_sub": 0.1, "format": "mb"},
         {"link_variants": ["honest", "replayed_name"], "p_sub": 0.1, "format": "dsse"},
         {},
     ]
-    recs, model = vcore.run_scenarios(ctx, opt_sets, n)
-    return vcore.report(ctx, "C08", recs, model, PROPS,
+    pinned, recs, model = vscen.run_all(ctx, opt_sets, n, pinned=PINNED)
+    summary = vscen.check_expectations(ctx, pinned, vcore.replay_file)
+    return vcore.report(ctx, "C08", pinned + recs, model, PROPS,
                         "verification core disagrees with the model (step-name binding)",
                         relevant=lambda r: any(t.startswith("link_replayed_name") for t in r["scen"]["tags"]),
+                        extra_cov={"pinned": summary},
                         assumptions=["theorems about Model/Verify.v; tie: differential run of in_toto_verify on generated supply chains "
-                                     "including links replayed under another step's file name"])
+                                     "including links replayed under another step's file name; pinned D8 regressions: both formats, "
+                                     "both directions of an ordered pair of steps sharing a functionary, with and without rules that "
+                                     "would notice, next to a valid link, inside a sublayout; a copied sublayout file is exempt"])
 
 
 def replay(ctx, obj):
-    return vcore.replay(ctx, "C08", obj)
+    return vscen.replay(ctx, "C08", obj)     # vcore.replay rewrites the inspection log path inside signed content
